@@ -227,6 +227,9 @@ func readMoves(r *bufio.Reader, ptn *PTN) error {
 		common := opCommon{tok}
 		switch {
 		case tok[0] == '{':
+			if len(tok) < 2 || tok[len(tok)-1] != '}' {
+				return errors.New("unterminated comment")
+			}
 			ptn.Ops = append(ptn.Ops, &Comment{common, tok[1 : len(tok)-1]})
 		case tok[len(tok)-1] == '.':
 			n, e := strconv.Atoi(tok[:len(tok)-1])
